@@ -36,4 +36,31 @@ theorem py_handle_accepts (s : State) (h : refuses s = false) :
     ∃ st, pyHandle s = .ret () st ∧ st.closed = s.conn.isSome ∧ st.proto = true ∧ st._restart = s.restart := by
   refine ⟨_, (py_handle_refuses s).2 h, rfl, rfl, rfl⟩
 
+/-! ## `can_reconnect` and `_reset` -/
+
+/-- `Peer.can_reconnect` as translated = `canReconnect` of the model (exabgp.tcp.attempts; 0 = unlimited). -/
+theorem py_can_reconnect_eq_model (s : State) :
+    Attempts.can_reconnect ⟨s.cfg.maxAttempts, s.attempts⟩ = .ret (canReconnect s) ⟨s.cfg.maxAttempts, s.attempts⟩ := by
+  unfold Attempts.can_reconnect canReconnect
+  by_cases h : s.cfg.maxAttempts = 0
+  · simp [h]
+  · have h' : ((s.cfg.maxAttempts : Int) == 0) = false := by simp; omega
+    have h'' : (s.cfg.maxAttempts == 0) = false := by simpa using h
+    simp [h', h'']
+
+/-- `Peer._reset` as translated, for a neighbor that is not ephemeral (the model has none): the connection is
+    closed (`_close`) whatever the state; the pending teardown is forgotten and the RIB reset exactly when the
+    peer restarts — `resetP` of the model (`teardown := none`, `refreshQ := 0` under `restart`). -/
+theorem py_reset_eq_model (restart teardownSet : Bool) :
+    Reset._reset ⟨restart, teardownSet, false, false⟩ false =
+      .ret () ⟨restart, (if restart then false else teardownSet), true, restart⟩ := by
+  unfold Reset._reset
+  cases restart <;> simp
+
+/-- an ephemeral neighbor is never restarted: nothing is reset for it -/
+theorem py_reset_ephemeral (restart teardownSet : Bool) :
+    Reset._reset ⟨restart, teardownSet, false, false⟩ true = .ret () ⟨restart, teardownSet, true, false⟩ := by
+  unfold Reset._reset
+  cases restart <;> simp
+
 end Exa.Session
